@@ -13,7 +13,7 @@ func init() {
 		ID:  "C06",
 		Run: runC06,
 		Meta: propMeta{
-			Explanation: "Static clauses of TypedValue/TypedStore on all CFG paths: (1) every error produced by a codec or store call is compared with nil / returned / classified before exit or overwrite (a mis-tested or swallowed error stores wrong bytes or hides a failure); failure branches return a non-nil error; (2) the cache fields are written only on the success edge of the corresponding store call (cache never ahead of the store), absence is cached only on the ErrKeyNotFound edge; (3) cache fields are accessed only under the TypedValue mutex, writers (Compute/Set/Delete) use one write-locked section spanning read and store, locks are balanced; (4) TypedStore passes exactly the codec outputs to the store and Iterate* stop and report on the first decode error.",
+			Explanation: "Static clauses of TypedValue/TypedStore on all CFG paths: (1) every error produced by a codec or store call is compared with nil / returned / classified before exit or overwrite (a mis-tested or swallowed error stores wrong bytes or hides a failure); failure branches return a non-nil error; (2) the cache fields are written only on the success edge of the corresponding store call (cache never ahead of the store), absence is cached only on the ErrKeyNotFound edge; (3) cache fields are accessed only under the TypedValue mutex, writers (Compute/Set/Delete) use one write-locked section spanning read and store, locks are balanced; (4) TypedStore passes exactly the codec outputs to the store and Iterate* stop and report on the first decode error. Also: a finite case split over the three-valued cache state shows that Compute reaches the compute function without reading the store only when the value or the absence is cached.",
 			NotDecided:  "equality with the raw-key model over histories; behaviour of user-supplied codecs",
 			Assumptions: []string{"KVStore implementations report failures through their error result", "ierrors.Wrap of a non-nil error is non-nil"},
 		},
